@@ -288,6 +288,18 @@ theorem session_established (P : Prims) (hmac : ∀ k m, (P.mac k m).length = 16
   rw [hA, hB]
   exact ⟨cA.1, cB.1, cA.2.2.2, cB.2.2.2, cA.2.1, cB.2.1, cA.2.2.1, cB.2.2.1⟩
 
+/-- what the `loop` cases observe, as a theorem: two sessions that are mirrored (as
+`session_established` delivers them: each side's receive ciphers are the other side's send ciphers)
+deliver every packet list in order, in both directions, and stay mirrored -/
+theorem mirrored_sessions_deliver (P : Prims) (hmac : ∀ k m, (P.mac k m).length = 16)
+    (sA sB : Session) (hAB : sA.send = sB.recv) (hBA : sB.send = sA.recv)
+    (pa pb : List Pkt) (wa wb ra rb : List UInt8) (dA dB : Dir)
+    (ha : sendAll P sA.send pa = some (wa, dA)) (hb : sendAll P sB.send pb = some (wb, dB)) :
+    recvSeq P sB.recv (wa ++ ra) (pa.map (·.aad)) = some (pa.map (fun p => (p.ignore, p.contents)), dA, ra) ∧
+    recvSeq P sA.recv (wb ++ rb) (pb.map (·.aad)) = some (pb.map (fun p => (p.ignore, p.contents)), dB, rb) := by
+  rw [← hAB, ← hBA]
+  exact ⟨stream_sync P hmac pa sA.send dA wa ra ha, stream_sync P hmac pb sB.send dB wb rb hb⟩
+
 /-- v1 detection: a stream that starts with the 16-byte prefix of a v1 version message for this
 network (magic ‖ "version" ‖ 5 zero bytes) makes the responder report ErrUseV1Protocol without
 generating a key or writing a byte (so the caller can fall back to v1 on the same connection). -/
